@@ -316,6 +316,23 @@ theorem solOp_unique (drift : Matrix ι ι ℂ) (ctrls : List (Matrix ι ι ℂ)
     exact (hasDerivWithinAt_entry_iff _ _ _ _).mpr (hV t ht)
   · rw [hV0]; exact (solOp_zero drift ctrls chans T hT h0).symm
 
+/-- **uniqueness in the larger class, entry by entry**: continuity on `[0, Tend]` and the two-sided derivative at the
+times of `(0, Tend)` that are not merged grid points suffice -/
+theorem solOp_unique_off_grid (drift : Matrix ι ι ℂ) (ctrls : List (Matrix ι ι ℂ)) (chans : List (List Rat × List Rat))
+    (T : List Rat) (hT : T.Pairwise (· < ·)) (h0 : T.head? = some 0) (Tend : Rat) (hlast : T.getLast? = some Tend)
+    (hsub : ∀ c ∈ chans, ∀ p ∈ c.1, p ∈ T) (V : ℝ → Matrix ι ι ℂ)
+    (hc : ContinuousOn V (Set.Icc 0 ((Tend : ℚ) : ℝ))) (hV0 : V 0 = 1)
+    (hV : ∀ t ∈ Set.Ioo (0 : ℝ) ((Tend : ℚ) : ℝ), (∀ q ∈ T, ((q : ℚ) : ℝ) ≠ t) → ∀ i j,
+      HasDerivAt (fun s => V s i j) (((-Complex.I) • (statedHam drift ctrls chans Tend t * V t)) i j) t) :
+    ∀ t ∈ Set.Icc (0 : ℝ) ((Tend : ℚ) : ℝ), V t = solOp drift ctrls chans T t := by
+  apply prop_unique_off_grid (gridR T) _ (gridR_pairwise hT) 0 _ V hc
+  · intro t ht hnot
+    rw [hamAt_eq_stated drift ctrls chans T hT h0 Tend hlast hsub t]
+    refine (hasDerivAt_entry_iff _ _ _).mpr (hV t ht ?_)
+    intro q hq e
+    exact hnot (by unfold gridR; exact List.mem_map.mpr ⟨q, hq, e⟩)
+  · rw [hV0]; exact (solOp_zero drift ctrls chans T hT h0).symm
+
 /-- the merged grid of channels that start at 0 starts at 0 -/
 theorem head_sortU_zero (l : List Rat) (h0 : (0 : Rat) ∈ l) (hnn : ∀ x ∈ l, (0 : Rat) ≤ x) : (sortU l).head? = some 0 := by
   have hp := sortU_pairwise l
